@@ -19,6 +19,20 @@ Runtime monitoring with real processes.  Every judged observation comes from a c
 
 The reference digest comes from a child with a private fresh cache folder (a complete load); the
 environment switch SPSDK_CACHE_DISABLED is never set.
+
+Mechanism keys (decided from where / what was raised or which answer differs, never from random values):
+  quick-cache-eoferror-escapes / data-cache-eoferror-escapes   EOFError from pickle.load of an empty or frame-boundary
+                                                               truncated file is not in the loader's except tuple
+  data-cache-remove-race-filenotfound        `if exists(f): os.remove(f)` in the error handler of DatabaseData.__init__
+  quick-cache-wrong-type-assertion-escapes   `assert isinstance(loaded_db, QuickDatabase)` outside the caught types
+  data-cache-rejected-object-still-used      the handler removes the file but keeps `loaded_db_data` (AttributeError)
+  stale-data-cache-trusted-after-cached-file-vanished   same handler: a cache rejected because a cached file vanished
+                                                        is still used, edited files are answered from the stale copy
+  data-cache-trusts-stale-defaults-file      the data-cache fingerprint does not cover database_defaults.yaml
+  stale-cache-trusted:<kind>:<parts> / answers-skewed:<parts> / truncated-cache-trusted:<Q|D>   digest differs
+  damaged-cache-left-behind:<Q|D>            after a normal start the file is still damaged / not trustworthy
+  lock-stuck-with-no-live-holder             filelock.Timeout in a process that is alone on the folder
+  escape:<Type>@<function>, child-exit-<rc>-without-report, cli-*   anything else
 """
 from __future__ import annotations
 
@@ -62,6 +76,12 @@ ASSUMPTIONS = [
     "'all interleavings' is restated as: the interleavings actually driven, counted by distinct global event-order signatures",
     "in-process prefix cases keep the fully loaded Database object and memoise the defaults file; a stratified sample "
     "is re-run as real processes to show the shortcut hides nothing",
+    "an absent cache file after a normal start is a cold cache (recorded, not judged); lock discipline (cache files "
+    "opened while a cache lock is held) is recorded per open as cache_file_opens_* and not judged - the property is "
+    "about outcomes",
+    "'stale' = the data folder changed after the cache was written: mtime bump, same-size content edit, a cached "
+    "file removed; changes of the data folder WHILE processes run are out of scope",
+    "a valid pickle of the wrong type is treated as one more damaged state (DESIGN.md C18); it cannot be produced by a kill",
 ]
 REQUIRED_COUNTERS = ["crash_points", "prefixes_in_process", "prefixes_real", "schedules", "children_judged", "folder_checks"]
 CASE_TIMEOUT_S = 900
@@ -72,7 +92,7 @@ PY = "/venv/bin/python"
 HERE = os.path.dirname(os.path.abspath(__file__))
 CHILD = os.path.join(HERE, "c18_child.py")
 CHILD_TIMEOUT_S = 150
-KMAX_WRITE = {"Q": 4, "D": 13}
+KMAX_WRITE = {"Q": 4, "D": 12}
 KMAX_AUDIT = {"cold": 56, "both-mid": 72}
 KMAX_HOLD = 60
 META_TAGS = ("HOLD", "HOLD-IN-LOCK", "RELEASE", "RDV-WAIT", "RDV-GO", "EXIT", "DIED", "KILL-BEFORE", "HOOK-ERROR")
@@ -139,7 +159,7 @@ def _sched_cases(thorough: bool, seed: int) -> list[dict]:
         out.append({"kind": "sched", "n": rng.choice([2, 3, 4]), "state": rng.choice(["cold", "valid", "D-half", "Q-mid", "both-mid", "D-frame", "clearing-warm"]),
                     "plan": "wstall", "delay_us": rng.choice([3000, 20000, 60000]), "s": rng.randrange(1 << 30)})
     for j in range(n_rand):
-        n = [2, 4, 8, 16][j % 4] if j % 8 != 7 else rng.choice([2, 4, 8])
+        n = [2, 4, 8, 16, 2, 4, 8, 4][j % 8]
         st = SCHED_STATES[j % len(SCHED_STATES)] if j < 2 * len(SCHED_STATES) else rng.choice(SCHED_STATES)
         quanta = rng.choice([[0, 1, 5, 50], [0, 0, 0, 1, 5, 50], [0, 50, 120], [0, 1, 5, 50, 120], [0, 0, 5], [0, 5, 120, 250]])
         out.append({"kind": "sched", "n": n, "state": st, "plan": "random", "quanta": quanta, "s": rng.randrange(1 << 30)})
@@ -216,9 +236,10 @@ def _reap(p, base: str, timeout: float = CHILD_TIMEOUT_S) -> dict:
     return res
 
 
-def _run(cfg: dict, cache: str, wdir: str, data: str | None = None, wrapper: list | None = None) -> dict:
+def _run(cfg: dict, cache: str, wdir: str, data: str | None = None, wrapper: list | None = None,
+         timeout: float = CHILD_TIMEOUT_S) -> dict:
     p, base = _spawn(cfg, cache, wdir, data, wrapper)
-    return _reap(p, base)
+    return _reap(p, base, timeout)
 
 
 def _stderr_tail(res: dict, n: int = 500) -> str:
@@ -645,7 +666,8 @@ def _case_prefix_inproc(case, ctx):
     src = os.path.join(wdir, "valid.bin")
     _write(src, blob)
     data = os.path.join(core.repo_root(), "spsdk", "data")
-    r = _run({"mode": "prefixes", "which": which, "src": src, "lengths": lengths, "probe_file": _probe_file(data)}, cache, wdir)
+    r = _run({"mode": "prefixes", "which": which, "src": src, "lengths": lengths, "probe_file": _probe_file(data)}, cache, wdir,
+             timeout=700)  # a thorough batch is ~20 s of CPU; the machine is shared
     if r["rc"] != 0 or not r["out"]:
         raise core.Inconclusive(f"prefix batch child failed: rc={r['rc']} {r['err'] or _stderr_tail(r)}")
     o = r["out"]
@@ -974,13 +996,13 @@ def _signature(log: str, n: int) -> tuple[str, str, int, list]:
 
 
 def _big_files(data: str) -> list[str]:
-    """Three data files of 100..300 KB (first ones by path) - their pickles span several 64 KiB frames."""
+    """Three data files of 200..450 KB (first ones by path) - their pickles span several 64 KiB frames."""
     if ("big", data) not in _S:
         out = []
         for dev in sorted(os.listdir(os.path.join(data, "devices"))):
             ddir = os.path.join(data, "devices", dev)
             for f in sorted(os.listdir(ddir)):
-                if f.endswith(".json") and 100_000 <= os.path.getsize(os.path.join(ddir, f)) <= 300_000:
+                if f.endswith(".json") and 200_000 <= os.path.getsize(os.path.join(ddir, f)) <= 450_000:
                     out.append(os.path.join(ddir, f))
             if len(out) >= 3:
                 break
@@ -1019,7 +1041,8 @@ def _case_sched(case, ctx):  # noqa: C901
     elif plan == "wstall":
         # stall at syscall granularity: every write() to a cache file is delayed on entry (strace fault injection),
         # which keeps half-written files and writers that are between two write syscalls around for a long time
-        sched = {"kind": "none", "seed": case["s"]}
+        # ... and the children meet right before their first write of the data cache (a no-op wait while the lock is held)
+        sched = {"kind": "rendezvous", "at": ["open:w", "D"], "n": total, "seed": case["s"], "wait_ms": 250 + 70 * n, "after_ms": [0, 0, 1, 3]}
         wrapper = ["strace", "-f", "-qq", "-o", "/dev/null", "-P", os.path.join(cache, ref_for_prep["qn"]),
                    "-P", os.path.join(cache, ref_for_prep["dn"]), "-e", "trace=write",
                    "-e", f"inject=write:delay_enter={case['delay_us']}"]
@@ -1090,6 +1113,8 @@ def _case_sched(case, ctx):  # noqa: C901
             if not _judge_child(ctx, r, ref, dict(what, child=i), alone=False):
                 ok = False
                 died.append(i)
+            for k2, v2 in ((r["out"] or {}).get("opens") or {}).items():
+                ctx.count(f"cache_file_opens_{k2}", v2)  # lock discipline as observed by the audit hook (not judged)
         if died:
             ctx.note("children_failed_in_schedule", {"state": state, "n": n, "plan": plan, "failed": len(died)})
         # what the N processes left behind: a fresh start must be normal and the files valid
